@@ -35,6 +35,38 @@ macro_rules! narrow_bodies {
             // avoids a second divider circuit in the formula.
 
             /// the narrow `MulDiv` impls themselves (hook code mirroring the u64 impl)
+            pub fn mul_div_floor_only() {
+                let (a, b, c): (T, T, T) = (kani::any(), kani::any(), kani::any());
+                let f = a.checked_mul_div(&b, &c);
+                let p = u(a) * u(b);
+                if u(c) == 0 {
+                    assert!(f.is_none(), "C01: mul_div with a zero denominator did not fail");
+                } else {
+                    match f {
+                        Some(q) => assert!(is_floor_div(u(q), p, u(c)), "C01: checked_mul_div is not floor(a*b/c)"),
+                        None => assert!(p >= (TMAX + 1) * u(c), "C01: checked_mul_div fails although floor(a*b/c) fits"),
+                    }
+                }
+                kani::cover!(f.map_or(false, |q| u(q) * u(c) < p && u(q) > 1), "rounded down");
+                kani::cover!(f.is_none() && u(c) != 0, "overflow");
+            }
+
+            pub fn mul_div_ceil_only() {
+                let (a, b, c): (T, T, T) = (kani::any(), kani::any(), kani::any());
+                let g = a.checked_mul_div_ceil(&b, &c);
+                let p = u(a) * u(b);
+                if u(c) == 0 {
+                    assert!(g.is_none(), "C01: mul_div_ceil with a zero denominator did not fail");
+                } else {
+                    match g {
+                        Some(q) => assert!(is_ceil_div(u(q), p, u(c)), "C01: checked_mul_div_ceil is not ceil(a*b/c)"),
+                        None => assert!(p > TMAX * u(c), "C01: checked_mul_div_ceil fails although ceil(a*b/c) fits"),
+                    }
+                }
+                kani::cover!(g.map_or(false, |q| u(q) * u(c) > p && u(q) > 1), "rounded up");
+                kani::cover!(g.is_none() && u(c) != 0, "overflow");
+            }
+
             pub fn mul_div() {
                 let (a, b, c): (T, T, T) = (kani::any(), kani::any(), kani::any());
                 let f = a.checked_mul_div(&b, &c);
@@ -486,6 +518,14 @@ fn c01_integer_pow_u16() {
     w16::pow(4);
 }
 
+//@ prop=C01 tier=quick kind=hold
+//@ enc=<u16 as MulDiv>::checked_mul_div (narrow hook impl mirroring the u64 impl)
+//@ bound=width-reduced T=u16: every u16 operand triple (incl. zero denominator)
+#[kani::proof]
+fn c01_narrow_mul_div_floor_u16() {
+    w16::mul_div_floor_only();
+}
+
 //@ prop=C01 tier=thorough kind=hold
 //@ enc=<u16 as MulDiv>::{checked_mul_div,checked_mul_div_ceil} (narrow hook impl mirroring the u64 impl)
 //@ bound=width-reduced T=u16: every u16 operand triple (incl. zero denominator)
@@ -495,28 +535,25 @@ fn c01_narrow_mul_div_u16() {
     w16::mul_div();
 }
 
-//@ prop=C01 tier=thorough kind=hold
+//@ prop=C01 tier=quick kind=hold
 //@ enc=Unsigned::checked_round_up_div (generic default method)
 //@ bound=width-reduced T=u16: every u16 dividend/divisor
-//@ timeout=5400 mem=30
 #[kani::proof]
 fn c01_round_up_div_u16() {
     w16::round_up_div();
 }
 
-//@ prop=C01 tier=thorough kind=hold
+//@ prop=C01 tier=quick kind=hold
 //@ enc=Unsigned::as_divisor_to_round_up_magnitude_div (generic default method)
 //@ bound=width-reduced T=u16/i16: every u16 divisor, every i16 dividend
-//@ timeout=5400 mem=30
 #[kani::proof]
 fn c01_round_up_magnitude_div_u16() {
     w16::round_up_magnitude_div();
 }
 
-//@ prop=C01 tier=thorough kind=hold
+//@ prop=C01 tier=quick kind=hold
 //@ enc=MulDiv::checked_mul_div_with_signed_numerator (generic default method)
 //@ bound=width-reduced T=u16/i16: every u16 multiplicand/denominator, every i16 numerator
-//@ timeout=5400 mem=30
 #[kani::proof]
 fn c01_mul_div_signed_numerator_u16() {
     w16::mul_div_signed_numerator();
@@ -589,3 +626,4 @@ fn c01_signed_add_sub_u128() {
 fn c01_bound_magnitude_u128() {
     x128::bound_magnitude();
 }
+
